@@ -5,6 +5,7 @@ package libschema
 
 import (
 	"fmt"
+	"math"
 	"regexp"
 	"sync/atomic"
 
@@ -760,6 +761,13 @@ func constraintLen(input *lisp.LVal) (int, bool) {
 // length and cmp reports that length as out of bounds.  Inputs with no
 // measurable length pass.
 func lenConstraint(args *lisp.LVal, cmp func(length, comparison int) bool) *lisp.LVal {
+	// A length is an integer.  GoInt truncates a float, so a bound such as
+	// 2.5 silently became 2 and (s:len 2.5) accepted "ab"; no value has a
+	// fractional length, so such a schema is malformed and is refused when
+	// it is built, like any other bad argument.
+	if bound := args.Cells[0]; bound.Type == lisp.LFloat && bound.Float != math.Trunc(bound.Float) {
+		return lisp.ErrorConditionf(BadArgs, "A length bound must be an integer: %v", bound)
+	}
 	comparison, ok := lisp.GoInt(args.Cells[0])
 	if !ok {
 		return lisp.ErrorConditionf(BadArgs, "You cannot compare %v to a number", args.Cells[0])
